@@ -102,7 +102,48 @@ func genAstWriteFacts() {
 				}
 				return true
 			})
-			freshLocal := func(o types.Object) bool {
+			var freshLocal func(o types.Object) bool
+			// a call of a local function literal whose every result is memory made inside that literal
+			freshClosureCall := func(x *ast.CallExpr) bool {
+				id, ok := x.Fun.(*ast.Ident)
+				if !ok {
+					return false
+				}
+				fo := p.Info.Uses[id]
+				if fo == nil || !(fd.Body.Pos() <= fo.Pos() && fo.Pos() < fd.Body.End()) || len(defs[fo]) != 1 {
+					return false
+				}
+				fl, ok := defs[fo][0].(*ast.FuncLit)
+				if !ok || fl.Type.Results == nil || fl.Type.Results.NumFields() != 1 {
+					return false
+				}
+				okAll, nret := true, 0
+				ast.Inspect(fl.Body, func(n ast.Node) bool {
+					if inner, isLit := n.(*ast.FuncLit); isLit && inner != fl {
+						return false
+					}
+					if r, isRet := n.(*ast.ReturnStmt); isRet {
+						nret++
+						if len(r.Results) != 1 {
+							okAll = false
+							return true
+						}
+						switch y := r.Results[0].(type) {
+						case *ast.CompositeLit:
+						case *ast.Ident:
+							ro := p.Info.Uses[y]
+							if ro == nil || !(fl.Body.Pos() <= ro.Pos() && ro.Pos() < fl.Body.End()) || !freshLocal(ro) {
+								okAll = false
+							}
+						default:
+							okAll = false
+						}
+					}
+					return true
+				})
+				return okAll && nret > 0
+			}
+			freshLocal = func(o types.Object) bool {
 				if o == nil || !(fd.Body.Pos() <= o.Pos() && o.Pos() < fd.Body.End()) {
 					return false
 				}
@@ -123,7 +164,9 @@ func genAstWriteFacts() {
 							return false
 						}
 						if b, ok := p.Info.Uses[id].(*types.Builtin); !ok || (b.Name() != "make" && b.Name() != "new") {
-							return false
+							if !freshClosureCall(x) {
+								return false
+							}
 						}
 					default:
 						return false
